@@ -102,6 +102,9 @@ def gen_cases(tier, seed):
                 es = edits_of(prog)
                 for e in es:
                     yield {'P': prog, 'E': [e] if e else []}
+                if n <= 2:   # the same pair replayed on a recorder whose previous replays failed half way
+                    yield {'P': prog, 'E': [], 'after_failed_replay': True}
+                    yield {'P': prog, 'E': [es[1]] if len(es) > 1 and es[1] else [], 'after_failed_replay': True}
                 if tier == 'thorough' and n <= 2:
                     for e1, e2 in itertools.combinations([e for e in es if e], 2):
                         if e1[0] in ('drop', 'ins', 'swap') and e2[0] in ('arg', 'kwval', 'drop', 'swap'):
@@ -147,6 +150,9 @@ def run_case(case):
     r = P.record(prog)
     if R['final'] != 'saved' or ('save', r.rec_id) not in r.log:
         return dict(viol=[viol('harness:not-saved', 'recording of an output-only program was not saved', R['final'], r.log)], obs='unsaved')
+    if case.get('after_failed_replay'):
+        P.replay(r.env, r.rec_id, {'steps': [{'fn': 'out_a', 'a': ['xs']}, {'fn': 'out_b', 'a': ['xs']}, {'fn': 'in_b', 'a': ['xb'], 'nocatch': True}]})
+        P.replay(r.env, r.rec_id, {'steps': [{'fn': 'out_static', 'a': ['x1']}], 'end': 'intr'})
     pl = P.replay(r.env, r.rec_id, prog2)
     E2 = P.ref_replay(R, prog2)
     if pl.playback is None:
